@@ -1,7 +1,10 @@
 (* C04W model driver: parses the library text of the harness (harness/c04w.cpp, grammar in its header) into the
    writer-side library of coq/OasisWrite.v and prints the bytes of the extracted write_oas_model (M line).
    With a second argument "S" it also runs the extracted strict decoder on the model's bytes and prints whether it
-   returns view_w (the statement of oas_writer_conforms_lemma, evaluated on this case). *)
+   returns view_w (the statement of oas_writer_conforms_lemma, evaluated on this case).
+   Kind "wrd" (payload "<seed> <variant> | dr dt <library text>"): the same with the extracted write_oas_model_d of
+   coq/OasisWriteDetect.v under the flag word (dr, dt) = (DETECT_RECTANGLES, DETECT_TRAPEZOIDS); with "S" the strict decoder
+   must return view_w_d (oas_writer_conforms_d_lemma evaluated on the case). *)
 open C04w
 open Conv
 
@@ -78,24 +81,49 @@ let library () =
   let nc = count () in let cells = times nc cell in
   (cfg, { li_unit = u; li_props = ps; li_cells = cells })
 
+(* the geometry record Polygon::to_oas selects under the flag word, as text (argument "K": statistics of a run) *)
+let record_kind f (p : wpoly) =
+  match fst (geom_d (fst f) (snd f) p) with
+  | code :: _ :: _ ->
+      let c = int_of_n code in
+      if c = 20 then (match snd (geom_d (fst f) (snd f) p) with
+                      | E_rect (_, _, w, h, _, _, _) -> if w = h then "square" else "rectangle"
+                      | _ -> "?")
+      else if c = 21 then "polygon"
+      else if c = 26 then (match snd (geom_d (fst f) (snd f) p) with
+                           | E_ctrap (_, _, ty, _, _, _, _, _) -> "ctrapezoid" ^ string_of_int (int_of_n ty)
+                           | _ -> "?")
+      else (match snd (geom_d (fst f) (snd f) p) with
+            | E_trap (v, _, _, _, _, _, _, _, _, _) -> "trapezoid" ^ string_of_int c ^ (if v then "v" else "h")
+            | _ -> "?")
+  | _ -> "?"
+
 let () =
   let check_spec = Array.length Sys.argv > 2 && Sys.argv.(2) = "S" in
+  let kinds = Array.length Sys.argv > 2 && Sys.argv.(2) = "K" in
   iter_cases Sys.argv.(1) (fun id kind payload ->
     match kind with
-    | "wr" ->
+    | "wr" | "wrd" ->
         (try
           let text = (match String.index_opt payload '|' with
             | Some i -> String.sub payload (i + 1) (String.length payload - i - 1)
             | None -> payload) in
           toks := Array.of_list (words text);
           pos := 0;
+          let flags = if kind = "wrd" then (let dr = (next () = "1") in let dt = (next () = "1") in Some (dr, dt)) else None in
           let (cfg, l) = library () in
           if !pos <> Array.length !toks then raise (Parse "trailing words");
-          let bs = write_oas_model cfg l in
+          let bs = (match flags with None -> write_oas_model cfg l | Some f -> write_oas_model_d cfg f l) in
           out id "M" (hex_of_bytes bs);
+          if kinds then
+            (match flags with
+             | Some f -> List.iter (fun c -> List.iter (fun p -> out id "K" (record_kind f p)) c.cl_polys) l.li_cells
+             | None -> ());
           if check_spec then
             out id "S" (match spec_oas_decode bs with
-                        | Some lay -> if lay = view_w cfg l then "conforms" else "decodes-differently"
+                        | Some lay ->
+                            let want = (match flags with None -> view_w cfg l | Some f -> view_w_d cfg f l) in
+                            if lay = want then "conforms" else "decodes-differently"
                         | None -> "rejected")
         with Parse m -> out id "M" ("bad-case " ^ m))
     | _ -> ())
